@@ -105,6 +105,8 @@ type Guard struct {
 	Mutex  string   // mutex field name ("" = embedded Mutex)
 	Inv    string
 	InvExp SpecExpr
+	Rely   string // two-state relation between successive views of the guarded fields: old(e) = earlier view
+	RelyExp SpecExpr
 	Line   int
 	File   string
 }
@@ -120,7 +122,7 @@ type ContractFile struct {
 }
 
 var (
-	reFuncHdr = regexp.MustCompile(`^func\s+(?:\(\s*(\w+)\s+\*?([\w./]+)\s*\)\s*)?([\w./]+)\s*(?:\(([^)]*)\))?\s*(?:\(([^)]*)\))?\s*$`)
+	reFuncHdr = regexp.MustCompile(`^func\s+(?:\(\s*(\w+)\s+\*?([\w./-]+)\s*\)\s*)?([\w./-]+)\s*(?:\(([^)]*)\))?\s*(?:\(([^)]*)\))?\s*$`)
 	reTag     = regexp.MustCompile(`^@(C\d+(?:,C\d+)*)\s+`)
 	reLoop    = regexp.MustCompile(`^loop\s+(\d+)\s*:\s*(.*)$`)
 	reLabel   = regexp.MustCompile(`^label\s+(\w+)\s*:\s*(.*)$`)
@@ -276,6 +278,10 @@ func parseContractLine(body, path string, line int, stub bool, cf *ContractFile,
 		g := &Guard{Type: strings.TrimSpace(rest[:i]), Line: line, File: path}
 		g.Fields = splitNames(rest[i+1 : by])
 		tail := strings.TrimSpace(rest[by+4:])
+		if j := strings.Index(tail, " rely "); j >= 0 {
+			g.Rely = strings.TrimSpace(tail[j+6:])
+			tail = strings.TrimSpace(tail[:j])
+		}
 		if j := strings.Index(tail, " inv "); j >= 0 {
 			g.Mutex = strings.TrimSpace(tail[:j])
 			g.Inv = strings.TrimSpace(tail[j+5:])
